@@ -8,6 +8,7 @@ package main
 import (
 	"fmt"
 	"go/ast"
+	"sort"
 	"strings"
 )
 
@@ -92,4 +93,75 @@ func factsC11() {
 	if f, fd := funcDecl("bus/client.go", "client", "OnDisconnect"); fd != nil {
 		fmt.Fprintf(&out, "Definition f_c11_ondisconnect_chans : list string := %s.\n", strList(chanMakes(f, fd)))
 	}
+	// bus/net/stream.go: the wrappers between a transport and the endpoint.  The methods each
+	// wrapper declares itself (connStream must declare no Read/Write/Close: those of the embedded
+	// net.Conn reach the endpoint unchanged), the fields of the wrappers, the text of pipeStream's
+	// one-call Read/Write/Close and of the constructors.
+	emitStrList("f_c11_stream_methods", streamMethods("bus/net/stream.go"))
+	emitStrList("f_c11_stream_fields", streamFields("bus/net/stream.go"))
+	for _, fn := range [][2]string{{"pipeStream", "Read"}, {"pipeStream", "Write"}, {"pipeStream", "Close"},
+		{"", "ConnStream"}, {"", "PipeStream"}} {
+		name := fn[1]
+		if fn[0] != "" {
+			name = fn[0] + "_" + fn[1]
+		}
+		emitStr("f_c11_text_"+name, normText("bus/net/stream.go", fn[0], fn[1]))
+	}
+	emitStr("f_c11_text_ConnEndPoint", normText("bus/net/endpoint.go", "", "ConnEndPoint"))
+}
+
+// streamMethods lists "Recv.Method" for every method declared in the file, sorted.
+func streamMethods(rel string) []string {
+	f := load(rel)
+	if f == nil {
+		return []string{"<missing " + rel + ">"}
+	}
+	var out []string
+	for _, d := range f.f.Decls {
+		fd, ok := d.(*ast.FuncDecl)
+		if !ok || fd.Recv == nil || len(fd.Recv.List) != 1 {
+			continue
+		}
+		out = append(out, strings.Join(strings.Fields(exprText(f.fset, fd.Recv.List[0].Type)), "")+"."+fd.Name.Name)
+	}
+	sort.Strings(out)
+	return out
+}
+
+// streamFields lists "Type{field type; ...}" for every struct type declared in the file (an
+// embedded field is its type alone), in source order.
+func streamFields(rel string) []string {
+	f := load(rel)
+	if f == nil {
+		return []string{"<missing " + rel + ">"}
+	}
+	var out []string
+	for _, d := range f.f.Decls {
+		gd, ok := d.(*ast.GenDecl)
+		if !ok {
+			continue
+		}
+		for _, sp := range gd.Specs {
+			ts, ok := sp.(*ast.TypeSpec)
+			if !ok {
+				continue
+			}
+			st, ok := ts.Type.(*ast.StructType)
+			if !ok {
+				continue
+			}
+			var fs []string
+			for _, fl := range st.Fields.List {
+				t := exprText(f.fset, fl.Type)
+				if len(fl.Names) == 0 {
+					fs = append(fs, t)
+				}
+				for _, n := range fl.Names {
+					fs = append(fs, n.Name+" "+t)
+				}
+			}
+			out = append(out, ts.Name.Name+"{"+strings.Join(fs, "; ")+"}")
+		}
+	}
+	return out
 }
